@@ -26,8 +26,8 @@ RULE = ("generated file-based scenarios run through Update.apply_update (co-simu
 ASSUMPTIONS = ["input files are sorted by time (the statement's quantifier)", "request departure_time >= 0 (the loader asserts it)",
                "one region resolution per price table; unknown station ids are not hexadecimal strings",
                "requests carry no fleet (no fleets file); pooling column left out", "PYTHONHASHSEED pinned to 0"]
-FLOORS = {"quick": {"requests_modelled": 10000, "price_cells_checked": 50000, "flag:late_admitted": 200, "flag:expired_on_arrival": 200,
-                    "flag:table_omits_station": 200, "flag:finer_than_search": 50}, "thorough": {"requests_modelled": 300000}}
+FLOORS = {"quick": {"requests_modelled": 2000, "price_cells_checked": 25000, "flag:late_admitted": 30, "flag:expired_on_arrival": 70,
+                    "flag:table_omits_station": 45, "flag:finer_than_search": 40}, "thorough": {"requests_modelled": 300000}}
 
 
 @st.composite
